@@ -3,6 +3,10 @@
 import json, subprocess
 
 CHECKS = {
+ "C20": dict(category="fault_enumeration", design="§3 C20",
+   text="Seal/unseal round trips for 3 key pairs x 10 answer shapes; every single-byte substitution (255 values) at every position of the decoded envelope, every base64 symbol substitution, every truncation and one-byte extension, and every other key must give an error or the original text; verification matrix of all single-/multiple-choice questions with 2..4 (5) choices x all output assignments x all non-empty subsets of marked letters over a..(n+1), plain and sealed, built in memory and run through the real renderer: Verify() accepts iff the marked set equals the matching set.",
+   note="Sealing randomness (session key, OAEP seed) is fresh per run and per worker, not enumerated; single-byte corruptions only. crypto/* is a dependency, not re-verified.",
+   technique="exhaustive single-fault enumeration over sealed envelopes and exhaustive enumeration of the verification matrix on the real code"),
  "C18": dict(category="fault_enumeration", design="§3 C18",
    text="Fault enumeration on the real evy binary with strace -e inject: for each configuration (5 inputs x 6 modes x permission bits) a baseline run collects the ordered list of file-system syscalls touching the scratch directory; every element is then failed once with each of ENOSPC/EIO/EACCES and once killed with SIGKILL on entry; coverage is verified from the strace log and gaps are reported. After every run the target holds its complete original or complete formatted text, mode bits are unchanged, unparsable files are untouched with non-zero exit, failures are reported, and -c exits 0 exactly for formatted input without modifying anything.",
    note="Process kill, not power loss; strace cannot produce partial writes; a few fault points per run may be missed because Go moves the goroutine between threads (listed as gaps, exhaustive:false).",
